@@ -367,10 +367,12 @@ def make_server_class(env):
 
 
 class SessRig:
-    def __init__(self, env, init):
+    def __init__(self, env, init, attrs=None):
         self.env = env
         cls = make_server_class(env)
         cls.initial_concurrent = init
+        for k, v in (attrs or {}).items():
+            setattr(cls, k, v)
         self.proto, self.tr, self.s = env.make_session(cls, 'server')
         self.s.rig = self
         self.gate = {}
@@ -488,6 +490,109 @@ def run_session_case(env, init, script):
     return ops, recs, orc
 
 
+def run_throttle_timeout_case(env, case):
+    """Cost above the soft limit (non-zero throttling delay), processing_timeout shorter than that
+    delay: every request of a first burst times out while it is being delayed or queued.  Then the
+    cost is refunded (limit back to its initial value) and a second burst arrives: the permits
+    must all still be there - in-flight reaches the limit, nobody waits while a permit is free, and
+    every request is served.  Oracle only (timeouts of many tasks at one instant are outside the
+    quiescent big-step model)."""
+    n, k, m = case['init'], case['first'], case['second']
+    soft, hard = 100.0, 1100.0
+    attrs = dict(cost_soft_limit=soft, cost_hard_limit=hard, cost_sleep=case['sleep'],
+                 processing_timeout=case['timeout'], cost_decay_per_sec=0.0, error_base_cost=0.0,
+                 bw_cost_per_byte=0.0)
+    rig = SessRig(env, n, attrs)
+    s = rig.s
+    conc = s._incoming_concurrency
+    key = why = None
+
+    def fail(kk, w):
+        nonlocal key, why
+        if why is None:
+            key, why = kk, w
+
+    x = soft + case['fraction'] * (hard - soft)
+    s.bump_cost(x)
+    s.recalc_concurrency()
+    lowered = conc.max_concurrent
+    delay = case['fraction'] * case['sleep']
+    rig.feed([(i, True) for i in range(k)], False)
+    env.idle()
+    if len(rig.hold) > n:
+        fail('c13:exceeds-max-limit', f'{len(rig.hold)} handlers in flight, limit {n}')
+    env.advance(case['timeout'] + delay + case['sleep'] + 1)
+    started_first = [i for i in range(k) if f'E{i}' in rig.evs]
+    # refund: the limit goes back to the initial value
+    s.bump_cost(-x)
+    s.recalc_concurrency()
+    limit = conc.max_concurrent
+    stats = dict(timed_out=k - len(started_first), lowered=lowered)
+    for i in list(rig.hold):
+        rig.gate[i].set_result(None)          # any first-burst handler that did start may finish
+    env.idle()
+    base = 1000
+    rig.feed([(base + j, True) for j in range(m)], False)
+    env.idle()
+    want = min(m, limit)
+    if limit != n:
+        fail('c13:max-concurrent', f'after the refund max_concurrent reads {limit}, initial {n}')
+    if len(rig.hold) > limit:
+        fail('c13:exceeds-max-limit', f'{len(rig.hold)} handlers in flight, limit {limit}')
+    if len(rig.hold) < want:
+        fail('c13:permit-lost',
+             f'after {stats["timed_out"]} requests timed out while throttled/queued (limit {lowered}, delay '
+             f'{delay}s > processing_timeout {case["timeout"]}s) and a full refund (limit {limit}), a burst '
+             f'of {m} requests has only {len(rig.hold)} handlers running, {len([w for w in rig.waiting if w >= base])} waiting')
+    guard = 0
+    while rig.hold and guard < 200:
+        rig.gate[rig.hold[0]].set_result(None)
+        env.idle()
+        guard += 1
+    left = [w for w in rig.waiting if w >= base]
+    if left:
+        fail('c13:not-served', f'requests {left} of the second burst never handled although every handler finished')
+    rep = rig.replies()
+    for j in range(m):
+        if len(rep.get(base + j, [])) != (0 if base + j in left else 1):
+            fail('c13:reply-count', f'request {base + j} got {len(rep.get(base + j, []))} replies')
+    for i in range(k):
+        if len(rep.get(i, [])) != 1:
+            fail('c13:reply-count', f'request {i} of the first burst got {len(rep.get(i, []))} replies')
+    env.close_loop()
+    env.new_loop()
+    return key, why, stats
+
+
+def throttle_timeout_cases(rng, count):
+    out = []
+    for c in range(count):
+        n = [1, 2, 3, 5, 20][c % 5]
+        sleep = rng.choice([8.0, 16.0])
+        fraction = rng.choice([0.5, 0.75, 0.25])
+        timeout = rng.choice([0.5, 1.0, sleep * fraction / 2])
+        out.append(dict(init=n, first=rng.randint(1, n + 3), second=n + rng.randint(0, 3), sleep=sleep,
+                        fraction=fraction, timeout=timeout))
+    return out
+
+
+def _tt_batch(cases):
+    return [run_throttle_timeout_case(_env, c) for c in cases]
+
+
+def evaluate_throttle_timeout(ctx, res, cases):
+    results = _pmap(ctx, _tt_batch, cases, chunk=20)
+    for case, (key, why, stats) in zip(cases, results):
+        c = dict(case, level='throttle-timeout')
+        if why:
+            res.violation(key, c, why)
+        res['evaluations'] += 1
+        res.count('throttle_timeout_cases')
+        res.count('requests_timed_out_while_throttled', stats['timed_out'])
+        if stats['timed_out']:
+            res.nontrivial(json.dumps(c, sort_keys=True))
+
+
 def random_session_script(rng):
     init = rng.choice([1, 2, 3, 5, 20])
     script = []
@@ -574,24 +679,34 @@ def run(ctx):
     if cc:
         check_results(ctx, res, _lim_batch(cc), 'corpus')
     res['scopes']['corpus'] = len(cc)
-    # (b) exhaustive small scope
     full = ctx.tier == 'thorough'
+    # (b) session level first (cheap, targeted): bursts through a real RPCSession, and requests
+    # that time out while throttled / queued followed by a refund and a second burst
+    ntt = 20
+    evaluate_throttle_timeout(ctx, res, throttle_timeout_cases(rng, ntt))
+    nsess = 300
+    sres = _pmap(ctx, _sess_batch, [random_session_script(rng) for _ in range(nsess)], chunk=100)
+    check_session_results(ctx, res, sres)
+    # (c) exhaustive small scope
     # a fingerprint drift / broken proof in the quick tier explores deeper, within the quick budget
-    maxlen = (9 if full else 7) if ctx.deep else 6
+    maxlen = (9 if full else 7) if ctx.deep and not res.failed else 6
     total, reached = exhaustive_limiter(ctx, res, maxlen)
     res['scopes']['exhaustive_limiter'] = {'max_ops': reached, 'initial_limits': [1, 2, 3],
                                            'streams': total, 'tail': f'{PROBES} probes + drain'}
-    # (c) random longer streams (half of them with limits <= 0 allowed)
+    # (d) random longer streams (half of them with limits <= 0 allowed)
     nrand = (20000 if full else 5000) if ctx.deep and not res.failed else 1500
     cases = [random_limiter_case(rng, k % 2 == 1) for k in range(nrand)]
     check_results(ctx, res, _pmap(ctx, _lim_batch, cases), 'random')
     res['scopes']['random_limiter'] = nrand
-    # (d) session level
-    nsess = (4000 if full else 1000) if ctx.deep and not res.failed else 300
-    scases = [random_session_script(rng) for _ in range(nsess)]
-    sres = _pmap(ctx, _sess_batch, scases, chunk=100)
-    check_session_results(ctx, res, sres)
+    # (e) more of the session level while nothing has failed
+    if ctx.deep and not res.failed:
+        more = 3700 if full else 700
+        check_session_results(ctx, res, _pmap(ctx, _sess_batch, [random_session_script(rng) for _ in range(more)], chunk=100))
+        nsess += more
+        evaluate_throttle_timeout(ctx, res, throttle_timeout_cases(rng, 40))
+        ntt += 40
     res['scopes']['session'] = nsess
+    res['scopes']['session_timeout_while_throttled'] = ntt
     for init, script, ops, recs, _k, _w in sres[:2]:
         res.sample({'level': 'session', 'case': fmt_case(init, ops)[:300],
                     'impl': ' | '.join(r for r in recs if r)[:400]})
@@ -603,7 +718,9 @@ def replay(ctx, case):
         case = case['case']
     res = Results()
     _init(ctx.repo)
-    if case.get('level') == 'session':
+    if case.get('level') == 'throttle-timeout':
+        evaluate_throttle_timeout(ctx, res, [{k: v for k, v in case.items() if k != 'level'}])
+    elif case.get('level') == 'session':
         script = [tuple(s) if not isinstance(s, tuple) else s for s in case['script']]
         script = [(s[0], [tuple(x) for x in s[1]], s[2]) if s[0] == 'recv' else tuple(s) for s in script]
         check_session_results(ctx, res, _sess_batch([(case['init'], script)]))
